@@ -335,6 +335,8 @@ class Run:
 
     def tie(self, name, relpath, fragment):
         rc, out = coqc(relpath)
+        if rc == 0 and 'Axioms:' in out:
+            rc, out = 1, 'the tie lemma depends on axioms: ' + out[out.index('Axioms:'):][:300]
         st = 'proved' if rc == 0 else 'failed'
         self.obligations.append({'name': name, 'file': relpath, 'status': st, 'kind': 'tie', 'fragment': fragment})
         if rc != 0:
